@@ -576,42 +576,295 @@ Section ProcessorLemmas.
 
   (* ---------- the processor ---------- *)
   Notation allmsgs := (allmsgs msg).
+  Notation p_r := (p_r line msg event cerr AS).
+  Notation p_cb := (p_cb line msg event cerr AS).
+  Notation p_perr := (p_perr line msg event cerr AS).
+  Notation p_consumed := (p_consumed line msg event cerr AS).
+  Notation p_ops := (p_ops line msg event cerr AS).
+  Notation cb_groups := (cb_groups msg event cerr AS).
+  Notation cb_errs := (cb_errs msg event cerr AS).
+  Notation cb_slot := (cb_slot msg event cerr AS).
+  Notation cb_dropped := (cb_dropped msg event cerr AS).
+  Notation poll := (poll line msg event cerr AS).
+  Notation shutdown := (shutdown line msg event cerr AS mseq mtype coalesce old audit maxsz timeout).
+  Notation pinit := (pinit line msg event cerr AS).
 
   Record pinv (s : pst) : Prop := {
-    pi_cons : Permutation (concat (cb_groups _ _ _ _ (p_cb _ _ _ _ _ s)) ++ allmsgs (r_evs (p_r _ _ _ _ _ s)))
-                          (filter non_eoe (ops_msgs (p_ops _ _ _ _ _ s)));
-    pi_groups : cb_groups _ _ _ _ (p_cb _ _ _ _ _ s) =
-                map e_msgs (snd (rrun msg mseq mtype maxsz timeout (rinit msg) (p_ops _ _ _ _ _ s)));
-    pi_state : p_r _ _ _ _ _ s = fst (rrun msg mseq mtype maxsz timeout (rinit msg) (p_ops _ _ _ _ _ s));
-    pi_parse : parse_loop (p_consumed _ _ _ _ _ s) = (ops_msgs (p_ops _ _ _ _ _ s), p_perr _ _ _ _ _ s);
-    pi_slot : slot_inv (p_cb _ _ _ _ _ s)
+    pi_cons : Permutation (concat (cb_groups (p_cb s)) ++ allmsgs (r_evs (p_r s)))
+                          (filter non_eoe (ops_msgs (p_ops s)));
+    pi_groups : cb_groups (p_cb s) = map e_msgs (snd (rrun msg mseq mtype maxsz timeout (rinit msg) (p_ops s)));
+    pi_state : p_r s = fst (rrun msg mseq mtype maxsz timeout (rinit msg) (p_ops s))
   }.
 
   (* the state at the top of the select loop *)
   Definition quiet (s : pst) : Prop :=
-    p_perr _ _ _ _ _ s = None /\ cb_errs _ _ _ _ (p_cb _ _ _ _ _ s) = [].
+    p_perr s = None /\ cb_errs (p_cb s) = [] /\ cb_slot (p_cb s) = None /\ cb_dropped (p_cb s) = [].
 
-  Lemma concat_snoc {A} (l : list (list A)) x : concat (l ++ x) = concat l ++ concat x.
-  Proof. apply concat_app. Qed.
+  Definition parse_ok (s : pst) : Prop := parse_loop (p_consumed s) = (ops_msgs (p_ops s), p_perr s).
+
+  Definition errs_spec (s : pst) (res : result) : Prop :=
+    match cb_errs (p_cb s) with
+    | [] => (forall e, res <> RSlot _ _ _ e) /\ cb_dropped (p_cb s) = []
+    | e :: rest => res = RSlot _ _ _ e /\ cb_dropped (p_cb s) = rest
+    end.
 
   Lemma reass_inv s o : pinv s -> pinv (reass s o).
   Proof.
-    intros [Hc Hg Hst Hp Hs]. unfold AuditProc.reass.
-    pose proof (rstep_perm msg mseq mtype maxsz timeout (p_r _ _ _ _ _ s) o) as Hperm.
-    pose proof (rrun_app msg mseq mtype maxsz timeout (rinit msg) (p_ops _ _ _ _ _ s) [o]) as Happ.
+    intros [Hc Hg Hst]. unfold AuditProc.reass.
+    pose proof (rstep_perm msg mseq mtype maxsz timeout (p_r s) o) as Hperm.
+    pose proof (rrun_app msg mseq mtype maxsz timeout (rinit msg) (p_ops s) [o]) as Happ.
     simpl in Happ. rewrite <- Hst in Happ.
-    destruct (rstep msg mseq mtype maxsz timeout (p_r _ _ _ _ _ s) o) as [[r' ev] lost]. simpl in *.
+    destruct (rstep msg mseq mtype maxsz timeout (p_r s) o) as [[r' ev] lost]. simpl in *.
     rewrite app_nil_r in Happ.
     constructor; simpl.
     - rewrite callback_groups, concat_app, <- app_assoc.
       rewrite (ops_msgs_app msg), filter_app.
+      assert (E : ops_msgs [o] = op_msgs msg o) by (unfold AuditProc.ops_msgs; simpl; apply app_nil_r).
+      rewrite E.
       eapply Permutation_trans.
-      + apply Permutation_app_head. fold (allmsgs ev). exact Hperm.
+      + apply Permutation_app_head. exact Hperm.
       + rewrite app_assoc. apply Permutation_app_tail. exact Hc.
     - rewrite callback_groups, Happ. simpl. rewrite map_app, Hg. reflexivity.
     - rewrite Happ. reflexivity.
-    - rewrite (ops_msgs_app msg). destruct o; simpl in *; try (rewrite app_nil_r; exact Hp).
-      (* a push does not go through here with a changed parse; handled in on_line_inv *)
-      exact (match Hp with eq_refl => eq_refl end) || idtac.
-  Abort.
+  Qed.
+
+  Lemma reass_fields s o :
+    p_perr (reass s o) = p_perr s /\ p_consumed (reass s o) = p_consumed s /\ p_ops (reass s o) = p_ops s ++ [o] /\
+    (slot_inv (p_cb s) -> slot_inv (p_cb (reass s o))).
+  Proof.
+    unfold AuditProc.reass. destruct (rstep msg mseq mtype maxsz timeout (p_r s) o) as [[r' ev] lost]. simpl.
+    repeat split. apply callback_inv.
+  Qed.
+
+  Lemma quiet_slot_inv s : quiet s -> slot_inv (p_cb s).
+  Proof. intros (_ & H1 & H2 & H3). unfold slot_inv. rewrite H1. split; assumption. Qed.
+
+  (* the select after a reassembler call made from a quiet state *)
+  Lemma poll_reass s o : quiet s ->
+    let r := poll (reass s o) in
+    p_r (fst r) = p_r (reass s o) /\ cb_groups (p_cb (fst r)) = cb_groups (p_cb (reass s o)) /\
+    p_ops (fst r) = p_ops s ++ [o] /\ p_consumed (fst r) = p_consumed s /\ p_perr (fst r) = None /\
+    perr_of _ _ _ (snd r) = None /\ errs_spec (fst r) (snd r) /\ (snd r = RNone _ _ _ -> quiet (fst r)).
+  Proof.
+    intros Hq. destruct (reass_fields s o) as (F1 & F2 & F3 & F4).
+    specialize (F4 (quiet_slot_inv _ Hq)). destruct Hq as (Q1 & Q2 & Q3 & Q4).
+    unfold AuditProc.poll. rewrite F1, Q1. unfold slot_inv in F4. unfold errs_spec, quiet.
+    destruct (cb_errs (p_cb (reass s o))) as [|e rest] eqn:He; destruct F4 as [S1 S2]; rewrite S1; simpl.
+    - rewrite ?He, ?F1, ?F2, ?F3, ?S1, ?S2. repeat split; try assumption; try reflexivity; try discriminate; try (intros; discriminate).
+    - rewrite ?He, ?F2, ?F3, ?S2. repeat split; try reflexivity; try assumption; try discriminate; try (intros; discriminate). rewrite F1. exact Q1.
+  Qed.
+
+  Lemma step_spec s i : pinv s -> parse_ok s -> quiet s ->
+    let r := step s i in
+    pinv (fst r) /\ parse_ok (fst r) /\ p_perr (fst r) = perr_of _ _ _ (snd r) /\
+    p_consumed (fst r) = p_consumed s ++ lines_of [i] /\
+    errs_spec (fst r) (snd r) /\ (snd r = RNone _ _ _ -> quiet (fst r)).
+  Proof.
+    intros Hinv Hp Hq. destruct i as [now l|now|lg|]; simpl.
+    - (* a line *)
+      unfold AuditProc.on_line.
+      assert (Hp' : parse_loop (p_consumed s ++ [l]) =
+                    if is_empty l then (ops_msgs (p_ops s), None) else
+                    match parse l with None => (ops_msgs (p_ops s), Some l) | Some m => (ops_msgs (p_ops s) ++ [m], None) end).
+      { unfold parse_ok in Hp. destruct Hq as (Q1 & _). rewrite Q1 in Hp.
+        rewrite parse_loop_snoc by (rewrite Hp; reflexivity). rewrite Hp. reflexivity. }
+      destruct (is_empty l) eqn:He.
+      + unfold AuditProc.poll, consume, errs_spec, quiet, parse_ok, quiet in *. simpl.
+        destruct Hq as (Q1 & Q2 & Q3 & Q4). rewrite ?Q1, ?Q3. simpl. rewrite ?Q1, ?Q2, ?Q3, ?Q4, ?Hp'.
+        repeat split; try reflexivity; try assumption; try (destruct Hinv; assumption); try discriminate; try (intros; discriminate).
+      + destruct (parse l) as [m|] eqn:Hpl.
+        * set (s0 := consume line msg event cerr AS l s).
+          assert (Hq0 : quiet s0) by exact Hq.
+          assert (Hinv0 : pinv s0) by (destruct Hinv; constructor; assumption).
+          pose proof (poll_reass s0 (RPush now m) Hq0) as H. cbv zeta in H.
+          destruct H as (A1 & A2 & A3 & A4 & A5 & A6 & A7 & A8).
+          pose proof (reass_inv s0 (RPush now m) Hinv0) as [I1 I2 I3].
+          destruct (reass_fields s0 (RPush now m)) as (F1 & F2 & F3 & _).
+          split; [constructor|split; [|split; [|split; [|split]]]].
+          -- rewrite A1, A2, A3, <- F3. exact I1.
+          -- rewrite A2, A3, <- F3. exact I2.
+          -- rewrite A1, A3, <- F3. exact I3.
+          -- unfold parse_ok. rewrite A4, A3, A5. simpl. rewrite Hp', (ops_msgs_app msg). simpl. reflexivity.
+          -- rewrite A5, A6. reflexivity.
+          -- rewrite A4. simpl. reflexivity.
+          -- exact A7.
+          -- exact A8.
+        * unfold AuditProc.poll, set_perr, consume, errs_spec, parse_ok in *. simpl.
+          destruct Hq as (Q1 & Q2 & Q3 & Q4). rewrite ?Q1, ?Q2, ?Q3, ?Q4, ?Hp'.
+          repeat split; try reflexivity; try assumption; try (destruct Hinv; assumption); try discriminate; try (intros; discriminate).
+    - (* Maintain *)
+      pose proof (poll_reass s (RMaintain now) Hq) as H. cbv zeta in H.
+      destruct H as (A1 & A2 & A3 & A4 & A5 & A6 & A7 & A8).
+      pose proof (reass_inv s (RMaintain now) Hinv) as [I1 I2 I3].
+      destruct (reass_fields s (RMaintain now)) as (F1 & F2 & F3 & _).
+      split; [constructor|split; [|split; [|split; [|split]]]].
+      + rewrite A1, A2, A3, <- F3. exact I1.
+      + rewrite A2, A3, <- F3. exact I2.
+      + rewrite A1, A3, <- F3. exact I3.
+      + unfold parse_ok in *. rewrite A4, A3, A5, (ops_msgs_app msg). simpl. rewrite app_nil_r.
+        destruct Hq as (Q1 & _). rewrite Q1 in Hp. exact Hp.
+      + rewrite A5, A6. reflexivity.
+      + rewrite A4, app_nil_r. reflexivity.
+      + exact A7.
+      + exact A8.
+    - (* a login *)
+      destruct Hq as (Q1 & Q2 & Q3 & Q4).
+      destruct (rlogin (cb_as _ _ _ _ (p_cb s)) lg) as [a [x|]]; simpl;
+        unfold errs_spec, quiet, parse_ok in *; simpl; rewrite ?Q1, ?Q2, ?Q3, ?Q4, ?app_nil_r;
+        (repeat split; try reflexivity; try assumption; try (destruct Hinv; assumption); try discriminate; try (intros e; discriminate)).
+      all: rewrite Q1 in Hp; exact Hp.
+    - (* cancellation *)
+      destruct Hq as (Q1 & Q2 & Q3 & Q4).
+      unfold errs_spec, quiet, parse_ok in *; simpl; rewrite ?Q1, ?Q2, ?Q3, ?Q4, ?app_nil_r;
+        (repeat split; try reflexivity; try assumption; try (destruct Hinv; assumption); try discriminate; try (intros e; discriminate)).
+      all: try (rewrite Q1 in Hp; exact Hp).
+  Qed.
+
+  Lemma lines_of_cons i r : lines_of (i :: r) = lines_of [i] ++ lines_of r.
+  Proof. unfold AuditProc.lines_of. simpl. rewrite app_nil_r. reflexivity. Qed.
+
+  Lemma read_from_spec ins : forall s, pinv s -> parse_ok s -> quiet s ->
+    let r := read_from s ins in
+    pinv (fst r) /\ parse_ok (fst r) /\ p_perr (fst r) = perr_of _ _ _ (snd r) /\
+    (exists rest, p_consumed s ++ lines_of ins = p_consumed (fst r) ++ rest) /\
+    (snd r = RNone _ _ _ -> p_consumed (fst r) = p_consumed s ++ lines_of ins) /\
+    errs_spec (fst r) (snd r).
+  Proof.
+    induction ins as [|i r IH]; intros s Hinv Hp Hq.
+    - simpl. destruct Hq as (Q1 & Q2 & Q3 & Q4). unfold errs_spec. rewrite Q2.
+      split; [exact Hinv|]. split; [exact Hp|]. split; [exact Q1|].
+      split; [exists []; reflexivity|]. split; [intros _; rewrite app_nil_r; reflexivity|].
+      split; [intros e; discriminate|exact Q4].
+    - pose proof (step_spec s i Hinv Hp Hq) as H. cbv zeta in H.
+      destruct H as (A1 & A2 & A3 & A4 & A5 & A6).
+      rewrite lines_of_cons. cbv zeta. cbn [AuditProc.read_from].
+      destruct (step s i) as [s' res]. cbn [fst snd] in *.
+      assert (Hstop : res <> RNone _ _ _ ->
+        pinv s' /\ parse_ok s' /\ p_perr s' = perr_of _ _ _ res /\
+        (exists rest, p_consumed s ++ lines_of [i] ++ lines_of r = p_consumed s' ++ rest) /\
+        (res = RNone _ _ _ -> p_consumed s' = p_consumed s ++ lines_of [i] ++ lines_of r) /\ errs_spec s' res).
+      { intros Hne. split; [exact A1|]. split; [exact A2|]. split; [exact A3|].
+        split; [exists (lines_of r); rewrite A4, <- app_assoc; reflexivity|].
+        split; [intros E; contradiction|exact A5]. }
+      destruct res as [|l|e|c|]; cbn [fst snd]; try (apply Hstop; discriminate).
+      specialize (IH s' A1 A2 (A6 eq_refl)). cbv zeta in IH.
+      destruct IH as (B1 & B2 & B3 & (rest & B4) & B5 & B6).
+      split; [exact B1|]. split; [exact B2|]. split; [exact B3|].
+      split; [exists rest; rewrite app_assoc, <- A4; exact B4|].
+      split; [intros Hn; rewrite (B5 Hn), A4, app_assoc; reflexivity|exact B6].
+  Qed.
+
+  Lemma pinit_ok a : pinv (pinit a) /\ parse_ok (pinit a) /\ quiet (pinit a).
+  Proof.
+    repeat split; simpl; try reflexivity.
+  Qed.
+
+  (* C15_conservation *)
+  Theorem conservation a ins :
+    let o := read a ins in
+    let fin := o_fin _ _ _ _ _ o in
+    Permutation (concat (cb_groups (p_cb fin))) (filter non_eoe (ops_msgs (p_ops fin))) /\
+    cb_groups (p_cb fin) = groups_of msg mseq mtype maxsz timeout (p_ops (o_ret _ _ _ _ _ o)) /\
+    ops_msgs (p_ops fin) = ops_msgs (p_ops (o_ret _ _ _ _ _ o)) /\
+    parse_loop (p_consumed fin) = (ops_msgs (p_ops fin), perr_of _ _ _ (o_res _ _ _ _ _ o)) /\
+    (exists rest, lines_of ins = p_consumed fin ++ rest) /\
+    (o_res _ _ _ _ _ o = RNone _ _ _ -> p_consumed fin = lines_of ins).
+  Proof.
+    destruct (pinit_ok a) as (I & P & Q).
+    pose proof (read_from_spec ins (pinit a) I P Q) as H. cbv zeta in H.
+    unfold AuditProc.read. destruct (read_from (pinit a) ins) as [s res]. simpl in *.
+    destruct H as (B1 & B2 & B3 & B4 & B5 & B6).
+    pose proof (reass_inv s RClose B1) as [C1 C2 C3].
+    destruct (reass_fields s RClose) as (F1 & F2 & F3 & _).
+    unfold AuditProc.shutdown.
+    assert (Hm : ops_msgs (p_ops (reass s RClose)) = ops_msgs (p_ops s)).
+    { rewrite F3, (ops_msgs_app msg). simpl. apply app_nil_r. }
+    assert (Hempty : r_evs (p_r (reass s RClose)) = []).
+    { unfold AuditProc.reass. simpl. reflexivity. }
+    split; [|split; [|split; [|split; [|split]]]].
+    - rewrite Hempty in C1. unfold AuditProcLemmas.allmsgs in C1. simpl in C1. rewrite app_nil_r in C1. exact C1.
+    - destruct B1 as [_ G1 G2]. unfold AuditProc.reass, groups_of. simpl. rewrite callback_groups, G1, G2.
+      destruct (rrun msg mseq mtype maxsz timeout (rinit msg) (p_ops s)) as [st ev]. simpl. rewrite map_app. reflexivity.
+    - exact Hm.
+    - rewrite ?F2, ?Hm. simpl in Hm. rewrite ?Hm. unfold parse_ok in B2. rewrite B2, B3. reflexivity.
+    - rewrite ?F2. exact B4.
+    - rewrite ?F2. exact B5.
+  Qed.
+
+  (* C15_errors *)
+  Theorem errors a ins :
+    let o := read a ins in
+    let c := p_cb (o_ret _ _ _ _ _ o) in
+    match cb_errs c with
+    | [] => (forall e, o_res _ _ _ _ _ o <> RSlot _ _ _ e) /\ cb_dropped c = []
+    | e :: rest => o_res _ _ _ _ _ o = RSlot _ _ _ e /\ cb_dropped c = rest
+    end.
+  Proof.
+    destruct (pinit_ok a) as (I & P & Q).
+    pose proof (read_from_spec ins (pinit a) I P Q) as H. cbv zeta in H.
+    unfold AuditProc.read. destruct (read_from (pinit a) ins) as [s res]. simpl in *.
+    destruct H as (_ & _ & _ & _ & _ & B6). exact B6.
+  Qed.
 End ProcessorLemmas.
+
+(* ---------- the capacity-1 channel under arbitrary sends and receives ---------- *)
+Section SlotLemmas.
+  Variable E : Type.
+
+  Definition sends (ops : list (sop E)) : list E :=
+    flat_map (fun o => match o with SSend e => [e] | STake => [] end) ops.
+
+  Definition pending (s : option E) : list E := match s with Some e => [e] | None => [] end.
+
+  (* no error vanishes unaccounted: each sent error is received, still pending, or was dropped *)
+  Lemma slot_account ops : forall slot,
+    let '(s, got, dr) := slot_run E slot ops in
+    Permutation (pending slot ++ sends ops) (got ++ pending s ++ dr).
+  Proof.
+    induction ops as [|o r IH]; intros slot; simpl.
+    - rewrite !app_nil_r. reflexivity.
+    - destruct o as [e|].
+      + destruct slot as [e0|].
+        * specialize (IH (Some e0)). destruct (slot_run E (Some e0) r) as [[s got] dr]. simpl in *.
+          eapply Permutation_trans; [apply perm_swap|].
+          eapply Permutation_trans; [apply perm_skip; exact IH|].
+          rewrite !app_assoc. apply Permutation_middle.
+        * specialize (IH (Some e)). destruct (slot_run E (Some e) r) as [[s got] dr]. simpl in *. exact IH.
+      + destruct slot as [e0|].
+        * specialize (IH None). destruct (slot_run E None r) as [[s got] dr]. simpl in *. apply perm_skip. exact IH.
+        * specialize (IH None). destruct (slot_run E None r) as [[s got] dr]. simpl in *. exact IH.
+  Qed.
+
+  (* a send is dropped only while an earlier error is pending: from an empty slot nothing is
+     dropped before the first send, and the first send is received first (or stays pending) *)
+  Lemma slot_first e r :
+    let '(s, got, dr) := slot_run E None (SSend e :: r) in
+    (exists got', got = e :: got') \/ (got = [] /\ s = Some e).
+  Proof.
+    simpl. generalize e. clear e. induction r as [|o r IH]; intros e; simpl.
+    - right. split; reflexivity.
+    - destruct o as [e'|].
+      + specialize (IH e). destruct (slot_run E (Some e) r) as [[s got] dr]. exact IH.
+      + destruct (slot_run E None r) as [[s got] dr]. left. exists got. reflexivity.
+  Qed.
+
+  (* when every send is followed by a receive before the next send, nothing is dropped *)
+  Fixpoint alternating (full : bool) (ops : list (sop E)) : Prop :=
+    match ops with
+    | [] => True
+    | SSend _ :: r => full = false /\ alternating true r
+    | STake :: r => alternating false r
+    end.
+
+  Lemma slot_no_drop ops : forall slot,
+    alternating (match slot with Some _ => true | None => false end) ops ->
+    snd (slot_run E slot ops) = [].
+  Proof.
+    induction ops as [|o r IH]; intros slot H; simpl; [reflexivity|].
+    destruct o as [e|]; simpl in H.
+    - destruct H as [Hf H]. destruct slot; [discriminate|]. apply (IH (Some e)). exact H.
+    - destruct slot as [e0|].
+      + specialize (IH None H). destruct (slot_run E None r) as [[s got] dr]. exact IH.
+      + apply (IH None). exact H.
+  Qed.
+End SlotLemmas.
